@@ -363,7 +363,11 @@ def make_redis_storage(fake):
 
 # ------------------------------------------------- fake object store / queue
 class FakeObjectStore(object):
-    """Object store with the interface CloudStorage relies on."""
+    """Object store with the interface CloudStorage relies on.  Like the
+    shipped S3 driver (slimta/cloudstorage/aws.py: 'attempts' and
+    'delivered_indexes' are written as '' and left out of the meta dict while
+    empty) a fresh message's meta holds the timestamp only - which is what
+    CloudStorage.get() allows for with meta.get('attempts', 0)."""
 
     def __init__(self, yields=True):
         self.objs = {}
@@ -378,7 +382,7 @@ class FakeObjectStore(object):
         self._y()
         key = 'obj%04d' % next(self.n)
         self.objs[key] = {'env': pickle.dumps(envelope),
-                          'meta': {'timestamp': timestamp, 'attempts': 0}}
+                          'meta': {'timestamp': timestamp}}
         return key
 
     def _get(self, id):
